@@ -1,5 +1,7 @@
 import Driver.Util
 import GoBeans.Model.Store
+import GoBeans.Model.GC
+import GoBeans.Lemmas.GCLog
 import GoBeans.Spec.KV
 
 /-! engine `seq`: a real HStore driven by one client, against
@@ -24,8 +26,11 @@ structure St where
   buckets : Array Store.Bucket := #[]
   spec : Spec.KV := []
   inexact : List Spec.Key := []          -- keys whose version is not compared (C02 proviso)
+  dataVer : List (Spec.Key × Int) := []  -- version carried by the last DATA write of each key (what a rebuild recovers)
   scfg : Store.Cfg := {}
   active : Bool := false
+  lastFiles : String := ""               -- the implementation's last data-file inventory (independent scan)
+  gcPending : Option (Nat × Nat × Nat × String) := none   -- bucket, start, end, inventory before the pass
 
 def depthOf (nb : Nat) : Nat := if nb ≥ 256 then 2 else if nb ≥ 16 then 1 else 0
 
@@ -136,7 +141,8 @@ def run (lines : Array String) : IO Report := do
           if stale then diff rep ln "oracle" s!"case={cid} key=C01/stale-after-stored/same-vhash set acknowledged STORED but skipped because the 16-bit value hash equals the stored one while bytes or flags differ"
           -- after a version-overflow refusal the reference follows the implementation (the finding is reported once)
           let sp' := if overflow && !(obs.startsWith so) then st.spec else sp'
-          st := { st with buckets := st.buckets.set! bkt b', spec := sp', inexact := if treeOnly then k :: st.inexact else st.inexact }
+          let dv := if pos.isSome then (match AMap.get b'.tree (hash k) with | some it => AMap.set st.dataVer k it.ver | none => st.dataVer) else st.dataVer
+          st := { st with buckets := st.buckets.set! bkt b', spec := sp', dataVer := dv, inexact := if treeOnly then k :: st.inexact else st.inexact }
           caseNontrivial := true
           ok rep
     | "del" :: kh :: rest =>
@@ -148,7 +154,8 @@ def run (lines : Array String) : IO Report := do
           ok rep
         else
           let b := st.buckets[bkt]!
-          let (b', r, pos) := Store.step hash st.scfg b (.delete k size)
+          let wts := ((kvOpt rest "ts").getD "0").toNat!
+          let (b', r, pos) := Store.step hash st.scfg b (.delete k size wts)
           let m := (match r with | .deleted => "DELETED" | .notFound => "NOT_FOUND" | _ => "ERR") ++ " pos=" ++ fmtPos bkt pos
           if m ≠ obs then diff rep ln "model" s!"case={cid} del: model={m} impl={obs}"
           let (sp', sr) := Spec.step scfgSpec st.spec (.delete k)
@@ -156,7 +163,8 @@ def run (lines : Array String) : IO Report := do
           if !(obs.startsWith so) then diff rep ln "oracle" s!"case={cid} key=C01/delete-status spec={so} impl={obs}"
           if sr == .deleted && pos.isNone && obs.startsWith "DELETED" then
             diff rep ln "oracle" s!"case={cid} key=C01/delete-not-written delete acknowledged but no tombstone record written"
-          st := { st with buckets := st.buckets.set! bkt b', spec := sp' }
+          let dv := if pos.isSome then (match AMap.get b'.tree (hash k) with | some it => AMap.set st.dataVer k it.ver | none => st.dataVer) else st.dataVer
+          st := { st with buckets := st.buckets.set! bkt b', spec := sp', dataVer := dv }
           ok rep
     | "incr" :: kh :: delta :: rest =>
         let k := unhex kh
@@ -167,13 +175,15 @@ def run (lines : Array String) : IO Report := do
           ok rep
         else
           let b := st.buckets[bkt]!
-          let (b', r, pos) := Store.step hash st.scfg b (.incr k (parseInt delta) size)
+          let wts := ((kvOpt rest "ts").getD "0").toNat!
+          let (b', r, pos) := Store.step hash st.scfg b (.incr k (parseInt delta) size wts)
           let m := (match r with | .num v => s!"{v}" | _ => "ERR") ++ " pos=" ++ fmtPos bkt pos
           if m ≠ obs then diff rep ln "model" s!"case={cid} incr: model={m} impl={obs}"
           let (sp', sr) := Spec.step scfgSpec st.spec (.incr k (parseInt delta))
           let so : String := match sr with | .num v => s!"{v} " | _ => "ERR"
           if !(obs.startsWith so) then diff rep ln "oracle" s!"case={cid} key=C01/incr-value spec={so} impl={obs}"
-          st := { st with buckets := st.buckets.set! bkt b', spec := sp' }
+          let dv := if pos.isSome then (match AMap.get b'.tree (hash k) with | some it => AMap.set st.dataVer k it.ver | none => st.dataVer) else st.dataVer
+          st := { st with buckets := st.buckets.set! bkt b', spec := sp', dataVer := dv }
           ok rep
     | ["get", kh] =>
         let k := unhex kh
@@ -233,11 +243,89 @@ def run (lines : Array String) : IO Report := do
               i := i + 1
             return out
           -- C02: tombstones are intentionally dropped when the tree is rebuilt
-          let sp := if keep then st.spec else st.spec.filter (fun p => p.2.ver > 0)
-          st := { st with buckets := bs, spec := sp }
+          -- C02: tombstones are intentionally dropped when the tree is rebuilt; a version that was changed
+          -- without a data write (check_vhash + explicit revision) falls back to the version in the data
+          let sp := if keep then st.spec else
+            (st.spec.filter (fun p => p.2.ver > 0)).map fun (k, e) =>
+              if st.inexact.contains k then (k, { e with ver := (AMap.get st.dataVer k).getD e.ver }) else (k, e)
+          st := { st with buckets := bs, spec := sp, inexact := if keep then st.inexact else [] }
           caseNontrivial := true
         ok rep
+    | "gc" :: opts =>
+        let geti := fun (n : String) => parseInt ((kvOpt opts n).getD "0")
+        let bkt := (geti "bkt").toNat
+        let b := st.buckets[bkt]!
+        let g : Store.GcArgs := { start := geti "begin", stop := geti "end", noGCDays := geti "nogcdays", now := geti "now" }
+        let pretend := geti "pretend" == 1
+        match Store.gcCheckRange st.scfg b g with
+        | .error _ =>
+            if obs ≠ "REFUSED" then diff rep ln "model" s!"case={cid} gc range: model=REFUSED impl={obs.take 80}"
+        | .ok (s, e) =>
+            -- C17 oracle on the resolved range: inside the store, below the head, non-empty start
+            if !(obs.startsWith s!"RANGE {s} {e}") then diff rep ln "model" s!"case={cid} gc range: model=RANGE {s} {e} impl={obs.take 80}"
+            if obs.startsWith "RANGE" then
+              let ow := obs.splitOn " "
+              let os := (ow.getD 1 "0").toNat!; let oe := (ow.getD 2 "0").toNat!
+              if !(os ≤ oe && oe < b.head) then
+                diff rep ln "oracle" s!"case={cid} key=C17/range resolved range [{os},{oe}] is not below the head file {b.head}"
+            if !pretend && obs.startsWith "RANGE" then
+              let (b', stats) := Store.gcRun hash st.scfg b s e
+              let m := s!"before={stats.numBefore} released={stats.numReleased} sizebefore={stats.sizeBefore} sizereleased={stats.sizeReleased}"
+              if !(obs.endsWith m) then diff rep ln "model" s!"case={cid} gc stats: model={m} impl={obs.take 160}"
+              -- model-internal tie: the concrete pass lays the records out as  before ++ kept ++ after
+              if (b'.log.map (·.2)) != StoreLemmas.gcAbstract hash b s e then
+                diff rep ln "model" s!"case={cid} gc-abstraction: concrete gcRun differs from the abstract pass (Lemmas/GCLog.gcAbstract)"
+              st := { st with buckets := st.buckets.set! bkt b', gcPending := some (bkt, s, e, st.lastFiles) }
+              caseNontrivial := true
+        ok rep
     | ["files"] =>
+        -- oracles on the implementation's files right after a GC pass (C17 touch set, C18 only-current)
+        match st.gcPending with
+        | some (bkt, gs, ge, pre) =>
+            let seg := fun (txt : String) => ((txt.splitOn " ").filter (· ≠ "")).filterMap fun sg =>
+              match sg.splitOn ":" with
+              | bc :: _ => match bc.splitOn "/" with
+                | [b, c] => if b.toNat! == bkt then some (c.toNat!, sg) else none
+                | _ => none
+              | _ => none
+            let preS := seg pre; let postS := seg obs
+            -- C17: every file outside [gs, ge] is untouched, except one earlier file that may only grow
+            let mut grown := 0
+            for (c, sg) in preS do
+              if c < gs || c > ge then
+                match postS.find? (fun p => p.1 == c) with
+                | some (_, sg2) =>
+                    if sg2 ≠ sg then
+                      let body := fun (x : String) => ":".intercalate ((x.splitOn ":").drop 2)
+                      if c < gs && (body sg2).startsWith (body sg) then grown := grown + 1
+                      else diff rep ln "oracle" s!"case={cid} key=C17/touched-outside-range gc [{gs},{ge}] changed file {c}: before={sg.take 120} after={sg2.take 120}"
+                | none => diff rep ln "oracle" s!"case={cid} key=C17/touched-outside-range gc [{gs},{ge}] removed file {c} outside the range"
+            if grown > 1 then diff rep ln "oracle" s!"case={cid} key=C17/touched-outside-range gc [{gs},{ge}] appended to {grown} files below the range"
+            -- relocated records may also go into previously EMPTY slots below the range (new files); nothing may
+            -- appear above the range
+            for (c, _) in postS do
+              if c > ge && !(preS.any (fun p => p.1 == c)) then
+                diff rep ln "oracle" s!"case={cid} key=C17/touched-outside-range gc [{gs},{ge}] created file {c} above the range"
+            -- C18: inside the range only current records survive, each key once
+            let mut seen : List String := []
+            for (c, sg) in postS do
+              if c ≥ gs && c ≤ ge then
+                let items := (":".intercalate ((sg.splitOn ":").drop 2)).splitOn ","
+                for it in items do
+                  match it.splitOn ":" with
+                  | [_, kh, ver] =>
+                      let k := unhex kh
+                      let v := parseInt ver
+                      let cur : Bool := match AMap.get st.spec k with
+                        | some e => e.ver == v || st.inexact.contains k
+                        | none => decide (v < 0)          -- a tombstone of a key the (rebuilt) tree no longer knows
+                      if !cur then diff rep ln "oracle" s!"case={cid} key=C18/superseded-survives file {c} of the collected range still holds {kh}:{ver}, not the current record of its key"
+                      if v > 0 && seen.contains kh then diff rep ln "oracle" s!"case={cid} key=C18/duplicate-record key {kh} appears twice in the collected range"
+                      seen := kh :: seen
+                  | _ => pure ()
+            st := { st with gcPending := none }
+        | none => pure ()
+        st := { st with lastFiles := obs }
         let m := filesOfModel st.buckets
         -- the model's files hold the flushed prefix; at a restart everything is flushed by close
         let mFlushed := filesOfModel (st.buckets.map fun b => { b with chunks := fun i => { b.chunks i with flushed := (b.chunks i).recs.length } })
@@ -253,6 +341,9 @@ def run (lines : Array String) : IO Report := do
     | ["stray"] =>
         if obs ≠ "-" then diff rep ln "oracle" s!"case={cid} key=C15/stray-file files outside the served buckets' directories: {obs.take 200}"
         ok rep
+    | ["fatal"] =>
+        diff rep ln "oracle" s!"case={cid} key=C01/fatal-error a goroutine of the store hit a fatal error (the process would exit): {obs.take 200}"
+        st := { st with active := false }
     | ["end"] =>
         if caseNontrivial then nontrivial := nontrivial + 1
         st := { st with active := false }
